@@ -204,8 +204,9 @@ pub open spec fn rewards_dom(s0: StoreView, env: Env, info: MessageInfo) -> bool
             let coin = first_coin(info.funds@, cfg(s0).protocol_chain_config.ibc_token_denom@);
             coin is Some ==> {
                 &&& coin->Some_0.amount.0 <= AMOUNT_MAX()
-                // the exchange rate stays within the DOM range after the payment
-                &&& st(s0).total_native_token.0 + coin->Some_0.amount.0 <= 1000 * st(s0).total_liquid_stake_token.0
+                // the exchange rate stays within the DOM range after the payment (only meaningful while LST exists)
+                &&& st(s0).total_liquid_stake_token.0 > 0 ==>
+                        st(s0).total_native_token.0 + coin->Some_0.amount.0 <= 1000 * st(s0).total_liquid_stake_token.0
             }
         })
 }
